@@ -68,6 +68,10 @@ func vLoadLine(kind int, legacy bool, M Address) (string, int) {
 		return "MOV.I } 1, > 2", 6 // legal '94, illegal '88
 	case 17:
 		return "MOV $ 1, # 2", 7 // no modifier: only the '88 reader reads it, and #B is illegal for MOV
+	case 18:
+		return "SEQ $ 1, $ 2", 4 // '94-only opcode without modifier: neither reader can represent it
+	case 19:
+		return "MUL.F $ 1, $ 2", 6 // '94-only opcode: illegal under '88
 	}
 	return "JUNK", 4
 }
@@ -87,7 +91,7 @@ func VerifHarness_C10_reader() {
 	var orgVals []string
 	_ = orgVals
 	for i := 0; i < n; i++ {
-		kind := vPick("kind", 0, 17)
+		kind := vPick("kind", 0, 19)
 		if vParam("kset") == 1 {
 			// reduced set for multi-line files
 			vAssume(kind == 0 || kind == 1 || kind == 4 || kind == 9 || kind == 12 || kind == 14 || kind == 15)
